@@ -498,13 +498,30 @@ func VH18c_repeat() {
 		verif.Assert(sock.SetOption(mangos.OptionSubscribe, []byte{}) == nil, lab+"/subscribe")
 	}
 	D := time.Second
-	verif.Assert(sock.SetOption(mangos.OptionRecvDeadline, D) == nil, lab+"/set-deadline")
+	type rcv interface {
+		RecvMsg() (*mangos.Message, error)
+		SetOption(string, interface{}) error
+	}
+	var ep rcv = sock
+	if verif.Choice("api", 2) == 1 {
+		// the same on an opened context (patterns that have them)
+		c, cerr := sock.OpenContext()
+		if cerr != nil {
+			verif.Assume(false)
+		}
+		ep = c
+		lab += "/context"
+		if proto == "sub" {
+			verif.Assert(c.SetOption(mangos.OptionSubscribe, []byte{}) == nil, lab+"/subscribe")
+		}
+	}
+	verif.Assert(ep.SetOption(mangos.OptionRecvDeadline, D) == nil, lab+"/set-deadline")
 	side := vt.Listen(sock, "a")
 	peer := side.Peer("p")
 	for i := 0; i < R; i++ {
 		t0 := verif.Now()
 		var err error
-		g := verif.Go("recv", func() { _, err = sock.RecvMsg() })
+		g := verif.Go("recv", func() { _, err = ep.RecvMsg() })
 		verif.Quiesce()
 		verif.Assert(!g.Done(), lab+"/recv-returns-before-its-deadline")
 		verif.RunClockTo(t0 + D - 1)
@@ -523,7 +540,7 @@ func VH18c_repeat() {
 	verif.Quiesce()
 	var m *mangos.Message
 	var err error
-	g := verif.Go("recv-msg", func() { m, err = sock.RecvMsg() })
+	g := verif.Go("recv-msg", func() { m, err = ep.RecvMsg() })
 	verif.Quiesce()
 	verif.Assert(g.Done() && err == nil, lab+"/message-not-delivered-after-repeated-timeouts")
 	if g.Done() && err == nil {
